@@ -1,6 +1,6 @@
 (* Deterministic machines over the outcome monad, their runs, and a generic bisimulation theorem
    whose hypothesis is a boolean closure check evaluated by the kernel. *)
-From Coq Require Import NArith Bool List.
+From Coq Require Import NArith Arith Bool List Lia.
 From PK Require Import Base.Outcome Base.Finite.
 Import ListNotations.
 
@@ -191,3 +191,130 @@ Section Table.
   Definition build_table (init : outcome (m_st M)) (edges : list (nat * Inp)) : list (outcome (m_st M)) :=
     fold_left table_step edges [init].
 End Table.
+
+(* Reachable-state invariants, resynchronisation and silence bounds for one machine. *)
+Section Reach.
+  Context {Inp Out : Type} (M : machine Inp Out).
+  Variable eqb : m_st M -> m_st M -> bool.
+  Context `{E : EqbSpec _ eqb}.
+  Variable all_in : list Inp.
+  Variable silent : Out -> bool.          (* outputs that mean "nothing yet" *)
+
+  Definition mem (s : m_st M) (l : list (m_st M)) : bool := existsb (eqb s) l.
+  Lemma mem_In : forall s l, mem s l = true -> In s l.
+  Proof.
+    intros s l H. unfold mem in H. apply existsb_exists in H as (x & Hx & Hq).
+    beq Hq. subst x. exact Hx.
+  Qed.
+
+  (* breadth-first exploration from [init], bounded by fuel; the result is only a candidate set:
+     [inv_closed] is what is proved about it *)
+  Definition succs (frontier : list (m_st M)) : list (m_st M) :=
+    flat_map (fun s => flat_map (fun i => match m_step M s i with Ret (s', _) => [s'] | Panic => [] end) all_in) frontier.
+  Definition add_new (seen : list (m_st M)) (cands : list (m_st M)) : list (m_st M) :=
+    fold_left (fun acc s => if mem s seen || mem s acc then acc else acc ++ [s]) cands [].
+  Fixpoint explore (fuel : nat) (seen frontier : list (m_st M)) : list (m_st M) :=
+    match fuel with
+    | O => seen
+    | S f => match add_new seen (succs frontier) with
+             | [] => seen
+             | next => explore f (seen ++ next) next
+             end
+    end.
+
+  Variable sts : list (m_st M).
+  Variable init : m_st M.
+
+  Definition inv_closed : bool :=
+    mem init sts &&
+    forallb (fun s => forallb (fun i => match m_step M s i with Ret (s', _) => mem s' sts | Panic => false end) all_in) sts.
+
+  Theorem reach_inv : inv_closed = true ->
+    forall is, Forall (fun i => In i all_in) is ->
+    forall s, In s sts -> exists s' os, run M s is = Ret (s', os) /\ In s' sts.
+  Proof.
+    intros Hc is Hall. apply andb_prop in Hc as [_ Hc]. rewrite forallb_forall in Hc.
+    induction Hall as [|i is Hi Hall IH]; intros s Hs.
+    - exists s, []. simpl. auto.
+    - pose proof (Hc s Hs) as H. rewrite forallb_forall in H. specialize (H i Hi).
+      destruct (m_step M s i) as [[s1 o]|] eqn:E1; [|discriminate].
+      apply mem_In in H. destruct (IH s1 H) as (s' & os & R & Hin).
+      exists s', (o :: os). simpl. rewrite E1, R. auto.
+  Qed.
+
+  Lemma init_in : inv_closed = true -> In init sts.
+  Proof. intros Hc. apply andb_prop in Hc as [H _]. apply mem_In. exact H. Qed.
+
+  (* every transition that says something ends in the initial state *)
+  Definition resets : bool :=
+    forallb (fun s => forallb (fun i => match m_step M s i with
+                                        | Ret (s', o) => silent o || eqb s' init
+                                        | Panic => false end) all_in) sts.
+
+  Theorem resync : inv_closed = true -> resets = true ->
+    forall h i t, Forall (fun x => In x all_in) (h ++ [i]) -> Forall (fun x => In x all_in) t ->
+    forall sh oh o, run M init (h ++ [i]) = Ret (sh, oh ++ [o]) -> length oh = length h -> silent o = false ->
+    sh = init /\
+    run M init ((h ++ [i]) ++ t) =
+      match run M init t with Ret (s', ot) => Ret (s', (oh ++ [o]) ++ ot) | Panic => Panic end.
+  Proof.
+    intros Hc Hr h i t Hh Ht sh oh o Hrun Hlen Hs.
+    assert (Hsh : sh = init).
+    { rewrite run_app in Hrun. apply Forall_app in Hh as [Hh1 Hh2].
+      destruct (reach_inv Hc h Hh1 init (init_in Hc)) as (s1 & o1 & R1 & Hin).
+      rewrite R1 in Hrun. simpl in Hrun.
+      destruct (m_step M s1 i) as [[s2 o2]|] eqn:E2; [|discriminate].
+      injection Hrun as Hs2 Ho.
+      assert (Hl : length o1 = length oh).
+      { apply (f_equal (@length Out)) in Ho. rewrite !app_length in Ho. simpl in Ho.
+        apply Nat.add_cancel_r in Ho. exact Ho. }
+      apply app_inj_tail_iff in Ho as [_ Ho]. subst o2 s2.
+      unfold resets in Hr. rewrite forallb_forall in Hr. specialize (Hr s1 Hin).
+      rewrite forallb_forall in Hr. inversion Hh2 as [|? ? Hi _]. subst.
+      specialize (Hr i Hi). rewrite E2, Hs in Hr. simpl in Hr. beq Hr. exact Hr. }
+    split; [exact Hsh|].
+    rewrite run_app, Hrun, Hsh. reflexivity.
+  Qed.
+
+  (* [can_silent k s]: some k inputs in a row, starting in s, are all answered by silence *)
+  Fixpoint can_silent (k : nat) (s : m_st M) : bool :=
+    match k with
+    | O => true
+    | S k' => existsb (fun i => match m_step M s i with
+                                | Ret (s', o) => if silent o then can_silent k' s' else false
+                                | Panic => false end) all_in
+    end.
+
+  Lemma can_silent_complete : forall b s s' ob,
+    Forall (fun x => In x all_in) b -> run M s b = Ret (s', ob) -> forallb silent ob = true ->
+    can_silent (length b) s = true.
+  Proof.
+    induction b as [|i b IH]; intros s s' ob Hb Hrun Hsil; [reflexivity|].
+    simpl in Hrun. inversion Hb as [|? ? Hi Hb']. subst.
+    destruct (m_step M s i) as [[s1 o]|] eqn:E1; [|discriminate].
+    destruct (run M s1 b) as [[s2 os]|] eqn:R; [|discriminate].
+    injection Hrun as Hs2 Ho. subst ob s'. simpl in Hsil. apply andb_prop in Hsil as [Ho Hos].
+    simpl. apply existsb_exists. exists i. split; [exact Hi|]. rewrite E1, Ho.
+    exact (IH s1 s2 os Hb' R Hos).
+  Qed.
+
+  (* after any history, any n consecutive inputs produce at least one non-silent answer *)
+  Theorem silence_bound (n : nat) : inv_closed = true ->
+    forallb (fun s => negb (can_silent n s)) sts = true ->
+    forall h b, Forall (fun x => In x all_in) h -> Forall (fun x => In x all_in) b -> length b = n ->
+    exists sh oh s' ob, run M init h = Ret (sh, oh) /\ run M sh b = Ret (s', ob) /\
+                        existsb (fun o => negb (silent o)) ob = true.
+  Proof.
+    intros Hc Hn h b Hh Hb Hlen.
+    destruct (reach_inv Hc h Hh init (init_in Hc)) as (sh & oh & R1 & Hin).
+    destruct (reach_inv Hc b Hb sh Hin) as (s' & ob & R2 & _).
+    exists sh, oh, s', ob. split; [exact R1|]. split; [exact R2|].
+    destruct (existsb (fun o => negb (silent o)) ob) eqn:Ex; [reflexivity|exfalso].
+    assert (Hall : forallb silent ob = true).
+    { apply forallb_forall. intros o Ho. destruct (silent o) eqn:So; [reflexivity|].
+      assert (existsb (fun o => negb (silent o)) ob = true) by (apply existsb_exists; exists o; rewrite So; auto).
+      congruence. }
+    pose proof (can_silent_complete b sh s' ob Hb R2 Hall) as Hcs. rewrite Hlen in Hcs.
+    rewrite forallb_forall in Hn. specialize (Hn sh Hin). rewrite Hcs in Hn. discriminate.
+  Qed.
+End Reach.
